@@ -496,6 +496,7 @@ func (e *lpmEntry) upsert(primaryKey index.Key, obj object) bool {
 		e.head.obj = obj
 		return false
 	case -1:
+		e.tail = slices.Clone(e.tail)
 		oldHead := e.head
 		e.head = lpmEntryObject{primary: primaryKey, obj: obj}
 		e.tail = append(e.tail, lpmEntryObject{})
@@ -503,6 +504,7 @@ func (e *lpmEntry) upsert(primaryKey index.Key, obj object) bool {
 		e.tail[0] = oldHead
 		return true
 	}
+	e.tail = slices.Clone(e.tail)
 	idx, found := e.searchTail(primaryKey)
 	if found {
 		e.tail[idx].obj = obj
